@@ -96,6 +96,9 @@ def handle (c : Case) : Verdict :=
     let prevSame := su.getD 4 "" == "same"
     let prev : Option Bytes := if prevSame then some data else none
     let status := stt.getD 1 ""
+    -- the tracer itself was killed by the harness timeout (overloaded machine): log and state are
+    -- unrelated, nothing can be concluded from this run
+    if status == "timeout" then .agree false ["harness-timeout"] else
     match parseEvents data (tr.toList.drop 1) with
     | none => .differ "protocol" s!"unparsable trace {tr}"
     | some evs =>
